@@ -2,6 +2,7 @@
 import gc, json, os
 from harness.enc import IdMap, tag, untag, table_from, proj_table
 from harness import watchdog
+from harness import x_join
 
 FN = {'ident_a': lambda a: a, 'ident_b': lambda b: b, 'pair_ab': lambda a, b: (a, b)}
 MODEFN = lambda l, r: [r, l]
@@ -56,11 +57,16 @@ def render_call(left, right, lk, rk, op, mode, spelling, how, n):
     return lambda: left.xor(right, **kwx)
 
 
-def observe(x, y, lk, rk, op, mode, spelling, how):
+def observe(x, y, lk, rk, op, mode, spelling, how, codec=None):
     how0 = how
-    """how: 'method' (x.join / x.xor) or 'operator' (x * y, x / y; only with implicit keys, default mode)"""
+    """how: 'method' (x.join / x.xor) or 'operator' (x * y, x / y; only with implicit keys, default mode);
+    codec: the witness scheme of a table over abstract key cells (harness/x_join.py)"""
     ids = IdMap()
+    table_from, proj_table, untag = ((codec.table_from, codec.proj_table, codec.untag) if codec is not None else
+                                     (globals()['table_from'], globals()['proj_table'], globals()['untag']))
     dx, dy = table_from(x, ids), table_from(y, ids)
+    if codec is not None:
+        x, y = codec.abstract_in(x), codec.abstract_in(y)
     implicit = spelling == 'none'
     if how == 'rejoin':
         # a history on the same objects: join / xor once, edit one key cell of x in place through the column list
@@ -78,7 +84,7 @@ def observe(x, y, lk, rk, op, mode, spelling, how):
             newv = y['rows'][-1][rkc[0]] if rkc else x['rows'][0][kc[0]]
             x = {'cols': x['cols'], 'rows': [dict(r) for r in x['rows']]}
             x['rows'][i][kc[0]] = newv
-            dict.__getitem__(dx, kc[0])[i] = untag(newv, ids)
+            dict.__getitem__(dx, kc[0])[i] = (dict.__getitem__(dy, rkc[0])[-1] if rkc else dict.__getitem__(dx, kc[0])[0]) if codec is not None else untag(newv, ids)
     other = dy
     if how == 'method' and y['rows'] and (len(x['rows']) + 2 * len(y['rows'])) % 5 == 0:
         other = {c: list(dict.__getitem__(dy, c)) for c in dict.keys(dy)}     # a plain dict of column lists
@@ -94,8 +100,11 @@ def observe(x, y, lk, rk, op, mode, spelling, how):
         out = {'kind': 'exc', 'cls': type(val).__name__}
     else:
         out = {'kind': 'timeout'}
-    return {'op': op, 'x': x, 'y': y, 'lk': lk, 'rk': rk, 'mode': mode, 'implicit': implicit, 'spelling': spelling, 'how': how0,
-            'out': out, 'x_after': proj_table(dx, ids), 'y_after': proj_table(dy, ids)}
+    o = {'op': op, 'x': x, 'y': y, 'lk': lk, 'rk': rk, 'mode': mode, 'implicit': implicit, 'spelling': spelling, 'how': how0,
+         'out': out, 'x_after': proj_table(dx, ids), 'y_after': proj_table(dy, ids)}
+    if codec is not None:
+        o['scheme'] = codec.scheme.name; o['rot'] = codec.rot
+    return o
 
 
 # ---- histories on ONE pair of operand objects (enumerated by TLC: spec/MC_JoinObj.tla, shapes and plans: spec/JoinCalls.tla) ----
@@ -170,8 +179,9 @@ def rand_history(rng, catalogue):
     return {'x': x, 'yd': yd, 'shape': shape, 'steps': steps}
 
 
-def decorate(rng, kx, ky, variant):
-    """turn TLC's key tables into full operand tables; returns x, y, lk, rk"""
+def decorate(rng, kx, ky, variant, idbase=0):
+    """turn TLC's key tables into full operand tables; returns x, y, lk, rk (idbase lifts the row ids and the shared column's numbers
+    clear of the witnesses of a key scheme)"""
     keys = list(kx['cols'])
     def withcols(t, idcol, base, extra):
         rows = []
@@ -183,8 +193,8 @@ def decorate(rng, kx, ky, variant):
         return {'cols': list(t['cols']) + [idcol] + list(extra), 'rows': rows}
     ex, ey = {}, {}
     if variant in ('shared', 'shared_fn'):
-        ex['v'] = lambda i: ["s", "L%d" % i]; ey['v'] = lambda i: ["i", 100 + i] if i % 2 else ["nan", 50 + i]
-    x = withcols(kx, 'p', 1, ex); y = withcols(ky, 'q', 11, ey)
+        ex['v'] = lambda i: ["s", "L%d" % i]; ey['v'] = lambda i: ["i", idbase + 100 + i] if i % 2 else ["nan", 50 + i]
+    x = withcols(kx, 'p', idbase + 1, ex); y = withcols(ky, 'q', idbase + 11, ey)
     lk = [['col', c] for c in keys]; rk = [['col', c] for c in keys]
     if variant == 'renamed':            # the right key column has another name
         y = {'cols': ['k' + c if c in keys else c for c in y['cols']],
@@ -239,12 +249,12 @@ def applicable(plan, keys):
     return True
 
 
-def run_case(ctx, kx, ky, k, nplans, obs):
+def run_case(ctx, kx, ky, k, nplans, obs, codec=None):
     keys = list(kx['cols'])
     plans = [p for p in PLANS if applicable(p, keys)]
     for j in range(nplans):
         plan = plans[(k * 7 + j * 5) % len(plans)]
-        x, y, lk, rk = decorate(ctx.rng, kx, ky, plan[0])
+        x, y, lk, rk = decorate(ctx.rng, kx, ky, plan[0], 7000 if codec is not None else 0)
         if plan[3] == 'none' and plan[0] in ('renamed', 'computed_left', 'computed_right', 'computed_both', 'computed_pair'):
             continue
         if plan[3] in ('none',):    # implicit keys = shared columns
@@ -252,9 +262,81 @@ def run_case(ctx, kx, ky, k, nplans, obs):
             lk = rk = [['col', c] for c in common]
         if plan[3] == 'same' and lk != rk:
             continue
-        o = observe(x, y, lk, rk, plan[1], plan[2], plan[3], plan[4])
+        o = observe(x, y, lk, rk, plan[1], plan[2], plan[3], plan[4], codec)
         if o is not None:
             obs.append(o)
+
+
+# ---- abstract key cells: TLC enumerates tables over key classes and realisation slots, a witness scheme makes them concrete ----
+def schemes():
+    return [sc for sc in x_join.SCHEMES if not sc.held_back or os.environ.get('VERIF_C02_HELD_BACK') == '1']
+
+
+def rand_key_tables(rng):
+    pool = [["k", [c, sl]] for c in (1, 2, 3) for sl in 'AB'] + [["n", 0], ["nan", 1], ["nan", 2]]
+    sub = rng.sample(pool, rng.choice([3, 4, 6, len(pool)]))
+    def t(n):
+        return {'cols': ['a'], 'rows': [{'a': rng.choice(sub)} for _ in range(n)]}
+    return t(rng.choice([1, 2, 3, 5, 8])), t(rng.choice([1, 2, 3, 5, 8]))
+
+
+# ---- sessions on a pool of caller-owned objects (enumerated by TLC: spec/MC_JoinSess.tla, law: spec/JoinSess.tla) ----
+def run_session(h, family, obs, meta):
+    """replay one session: X, Z tables, Y a table / dict / Dict / DataFrame; every step (call, the caller's edit, overwriting the last
+    result) is recorded with the whole pool as read after the previous step and as read after this one"""
+    ids = IdMap()
+    kinds = {'X': 'table', 'Y': h['kindY'], 'Z': 'table'}
+    objs = {o: x_join.build_obj(kinds[o], h['pool'][o], ids) for o in ('X', 'Y', 'Z')}
+    read = lambda: {o: x_join.read_obj(kinds[o], objs[o], ids) for o in ('X', 'Y', 'Z')}
+    pool, res = read(), None
+    for k, st in enumerate(h['steps']):
+        out = {'kind': 'none'}
+        if st['kind'] == 'call':
+            f = render_call(objs[st['l']], objs[st['r']], st['lk'], st['rk'], st['op'], st['mode'], st['spelling'], st['how'], k)
+            if TIMEOUTS[0] >= 25:
+                return
+            status, val = timed(f)
+            res = None
+            if status == 'timeout':
+                TIMEOUTS[0] += 1; out = {'kind': 'timeout'}
+            elif status == 'ok':
+                out = proj_table(val, ids); out['kind'] = 'table'; res = val
+            else:
+                out = {'kind': 'exc', 'cls': type(val).__name__}
+        elif st['kind'] == 'editresult':
+            if res is not None:
+                x_join.overwrite_result(res)
+        else:
+            x_join.edit_obj(kinds[st['obj']], objs[st['obj']], st, ids)
+        after = read()
+        obs.append({'sess': 1, 'kindY': h['kindY'], 'step': st, 'pool': pool, 'pool_after': after, 'out': out})
+        meta[len(obs) - 1] = {'family': family, 'sess': h, 'step': k}
+        pool = after
+
+
+def check_sessions(sess, what, free):
+    """vacuity: every kind of Y, every call plan, every pair of objects and every kind of step must occur in what TLC enumerated"""
+    from harness.core import Machinery
+    seen = set()
+    for h in sess:
+        seen.add(('kindY', h['kindY']))
+        for k, st in enumerate(h['steps']):
+            seen.add(('kind', st['kind']))
+            if st['kind'] == 'call':
+                seen |= {('plan', st['op'], st['mode'], st['form']), ('pair', st['l'], st['r']), ('spelling', st['spelling'])}
+                if k and h['steps'][k - 1]['kind'] != 'call':
+                    seen.add(('call_after', h['steps'][k - 1]['kind'], h['kindY']))
+            elif st['kind'] != 'editresult':
+                seen.add(('edit', st['kind'], st['obj']))
+    want = ({('kindY', x) for x in ('table', 'dict', 'Dict', 'df')} | {('kind', x) for x in ('call', 'cell', 'setcol', 'append', 'editresult')}
+            | {('pair', l, r) for l in 'XYZ' for r in 'XYZ' if l != r} | {('spelling', x) for x in ('str', 'list', 'tuple', 'same', 'none')}
+            | {('plan', op, m, f) for op, ms in (('join', MODES), ('xor', ('l', 'r'))) for m in ms for f in ('explicit', 'implicit')}
+            | {('plan', 'join', 'none', 'operator'), ('plan', 'xor', 'l', 'operator'), ('plan', 'leftjoin', 'none', 'operator'),
+               ('plan', 'leftjoin', 'none', 'explicit'), ('plan', 'leftjoin', 'r', 'explicit')}
+            | {('edit', e, o) for e in ('cell', 'setcol', 'append') for o in 'XYZ'}
+            | {('call_after', 'setcol', kd) for kd in ('table', 'dict', 'Dict', 'df')} | {('call_after', 'editresult', kd) for kd in ('table', 'dict', 'Dict', 'df')})
+    if want - seen:
+        raise Machinery('vacuous: %s never enumerated %s' % (what, sorted(want - seen)))
 
 
 def rand_tables(rng):
@@ -273,6 +355,11 @@ def flush(ctx, obs, meta, final=False):
     if not obs or (len(obs) < FLUSH_AT and not final):
         return
     for k, m in meta.items():
+        if 'sess' in m:
+            st = m['sess']['steps'][m['step']]
+            if st['kind'] == 'call' and m['step'] and obs[k]['out'].get('rows'):
+                ctx.note(('sess', m['sess']['kindY'], m['sess']['steps'][m['step'] - 1]['kind'], st['op'], st['mode'], st['form'], st['l'] + st['r']))
+            continue
         st = m['hist']['steps'][m['step']]
         if m['hist']['shape'] != 'distinct' and st['lk'] != st['rk'] and obs[k]['out'].get('rows'):
             ctx.note(('alias', m['hist']['shape'], json.dumps([st['lk'], st['rk']]), st['op'], json.dumps(obs[k]['x'])))
@@ -280,9 +367,18 @@ def flush(ctx, obs, meta, final=False):
     bad = ctx.validate('Trace_Join', obs)
     for line, clause in bad:
         o = obs[line - 1]
+        if 'sess' in o:
+            m, st = meta[line - 1], o['step']
+            prev = [t['kind'] if t['kind'] != 'call' else '%s_%s' % (t['op'], t['mode']) for t in m['sess']['steps'][:m['step']]]
+            case = {'family': m['family'], 'kindY': o['kindY'], 'step_kind': st['kind'], 'op': st.get('op'), 'mode': st.get('mode'), 'form': st.get('form'),
+                    'l': st.get('l'), 'r': st.get('r'), 'before': prev[-2:], 'sess': m['sess'], 'step': m['step']}
+            ctx.violation(clause, case, {'out': o['out'], 'pool': o['pool'], 'pool_after': o['pool_after']})
+            continue
         kinds = sorted({v[0] for t in (o['x'], o['y']) for r in t['rows'] for c, v in r.items() if c in ('a', 'b', 'c', 'ka', 'kb')})
         case = {'op': o['op'], 'how': o['how'], 'spelling': o['spelling'], 'mode': o['mode'], 'lk': o['lk'], 'rk': o['rk'],
                 'key_kinds': kinds, 'x': o['x'], 'y': o['y']}
+        if 'scheme' in o:
+            case.update({'scheme': o['scheme'], 'rot': o['rot'], 'realisations': sorted({v[1][1] for t in (o['x'], o['y']) for r in t['rows'] for v in r.values() if v[0] == 'k'})})
         if line - 1 in meta:
             m = meta[line - 1]
             case.update({'family': m['family'], 'shape': o['shape'], 'dir': o['dir'], 'hist': m['hist'], 'step': m['step']})
